@@ -27,7 +27,7 @@ def copy_lock(crate):
 
 
 def e2_slices():
-    t = slicer.read(TABLE)
+    t = slicer.without_item(slicer.read(TABLE), r"pub\(crate\) mod verif_hooks", "verif_hooks module")
     out = {}
     out["calc_reductions_body"] = (
         slicer.block_after(
@@ -51,6 +51,13 @@ def e2_slices():
         "{\n" + slicer.region(b, r"fn extract_productions_and_symbols\s*\(", r"// Inherit meta-data from Rule\.", r"new_production\.nopse = true;\s*\}", "extract_productions_and_symbols/meta inheritance") + "\n}\n",
         BUILDER,
     )
+    out["firsts_fn"] = (slicer.fn_whole(t, r"fn firsts\s*\(", "firsts") + "\n", TABLE)
+    out["rn_lengths_fn"] = (slicer.fn_whole(t, r"fn production_rn_lengths\s*\(", "production_rn_lengths") + "\n", TABLE)
+    out["lritem_fns"] = ("impl LRItem {\n" + "\n".join(slicer.fn_whole(t, pat, what) for pat, what in (
+        (r"fn inc_position\s*\(", "LRItem::inc_position"), (r"fn is_kernel\s*\(", "LRItem::is_kernel"), (r"fn is_reducing\s*\(\s*&self", "LRItem::is_reducing"))) + "\n}\n", TABLE)
+    out["kernel_items_fn"] = ("impl<'g> LRState<'g> {\n" + slicer.fn_whole(t, r"fn kernel_items\s*\(", "LRState::kernel_items") + "\n}\n", TABLE)
+    out["lrstate_eq"] = (slicer.fn_whole(t, r"impl PartialEq for LRState<'_>", "impl PartialEq for LRState") + "\n", TABLE)
+    out["merge_state_fn"] = ("impl<'g, 's> LRTable<'g, 's> {\n" + slicer.fn_whole(t, r"fn merge_state\s*\(", "LRTable::merge_state") + "\n}\n", TABLE)
     a = slicer.read(ACTIONS)
     fns = []
     for f in ("regex_term", "int_const", "bool_const", "str_const", "annotation"):
